@@ -191,6 +191,7 @@ pub fn child_main(spec: &ExecSpec, argv: &[String], input_id: Option<(u64, u64)>
             input_bytes_after_stop: fpsim_rt::io::input_bytes_after_stop(),
             stdout_failed_writes_first_thread: ioc.stdout_failed_writes_first_thread,
             clock_jumps: fpsim_rt::io::clock_jumps_fired(),
+            seeded_entropy_reads: fpsim_rt::io::entropy_calls(),
         },
         wall_us: 0,
         cwd_files: Vec::new(),
